@@ -318,6 +318,7 @@ func (p *c13) RunCase(ctx *runner.Ctx) runner.CaseResult {
 	case ctx.Case < blocks+2:
 		p.malformed(x, adapt.Adapters[ctx.Case-blocks], ctx)
 		p.numberKeys(x, adapt.Adapters[ctx.Case-blocks], ctx)
+		p.keysSurviveIndexChurn(x, adapt.Adapters[ctx.Case-blocks])
 	case ctx.Case < blocks+4:
 		p.keyUpdates(x, adapt.Adapters[ctx.Case-blocks-2], ctx)
 	case ctx.Case < blocks+6:
@@ -618,6 +619,53 @@ func (p *c13) numberKeys(x *res, adapter string, ctx *runner.Ctx) {
 	// "0.00" and "-0" are one key; every other numeral of the list is a key of its own
 	if n := cl.Do(adapt.Op{Kind: adapt.OpScan, Table: spec.Name}); len(n.Items) != len(good)-1 {
 		x.viol("edge-number-keys-collide", adapter, fmt.Sprintf("[%s] %d numerals at the edge of the number range (two of them zero) were put under %d keys, want %d", adapter, len(good), len(n.Items), len(good)-1), nil)
+	}
+}
+
+// keysSurviveIndexChurn: the table's key attributes are what they were declared as for as long as the table lives -
+// also after secondary indexes over those very attributes (the inverted index, an index on the sort key alone)
+// were created and deleted. Afterwards every stored item is retrievable under its key, a number key is still
+// identified by its value, and a request that would re-declare the key attribute with another type is refused.
+func (p *c13) keysSurviveIndexChurn(x *res, adapter string) {
+	spec := adapt.TableSpec{Name: "tbl13c", Hash: "h", Range: "r", RangeT: "N", Billing: "PAY_PER_REQUEST", Indexes: []adapt.IndexSpec{
+		{Name: "inv", Hash: "r", HashT: "N", Range: "h"}, {Name: "byr", Hash: "r", HashT: "N"}, {Name: "gsi1", Hash: "g"}}}
+	for _, order := range [][]string{{"inv", "byr"}, {"byr", "inv"}, {"inv"}, {"byr"}, {"gsi1", "inv", "byr"}} {
+		cl, _, ds := freshClient(adapter, spec)
+		if ds != nil {
+			return
+		}
+		items := []val.Item{{"h": val.Str("a"), "r": val.Num("2"), "v": val.Str("one")}, {"h": val.Str("a"), "r": val.Num("10"), "v": val.Str("two")}, {"h": val.Str("b"), "r": val.Num("-0.5"), "g": val.Str("x")}}
+		for _, it := range items {
+			cl.Do(adapt.Op{Kind: adapt.OpPut, Table: spec.Name, Item: it})
+		}
+		for _, ix := range order {
+			cl.Do(adapt.Op{Kind: adapt.OpUpdateTable, Table: spec.Name, Chg: []adapt.IndexChange{{Delete: ix}}})
+		}
+		feature := adapter + "/" + strings.Join(order, "+")
+		x.fp(true, "churn|%s", feature)
+		wit := map[string]interface{}{"adapter": adapter, "spec": spec, "deleted_indexes": order}
+		for _, it := range items {
+			g := cl.Do(adapt.Op{Kind: adapt.OpGet, Table: spec.Name, Key: val.Item{"h": it["h"], "r": it["r"]}})
+			x.r.Evals++
+			if g.Class != adapt.ClsOK || !val.ItemsEqual(g.Item, it) {
+				x.viol("item-unreachable-after-index-deletion", feature, fmt.Sprintf("[%s] after deleting the indexes %v, GetItem %s: %s %s (%s); the item was stored as %s", adapter, order, it["h"].Canon()+"/"+it["r"].Canon(), g.Class, g.Item.Canon(), g.Msg, it.Canon()), wit)
+				break
+			}
+		}
+		// the key is still a NUMBER: another notation of a stored value addresses the stored item, a string does not
+		o := cl.Do(adapt.Op{Kind: adapt.OpPut, Table: spec.Name, Item: val.Item{"h": val.Str("a"), "r": val.Num("2.0"), "v": val.Str("one, rewritten")}})
+		sc := cl.Do(adapt.Op{Kind: adapt.OpScan, Table: spec.Name})
+		x.r.Evals += 2
+		if o.Class != adapt.ClsOK || len(sc.Items) != len(items) {
+			x.viol("number-key-identity-lost-after-index-deletion", feature, fmt.Sprintf("[%s] after deleting the indexes %v, PutItem with r = 2.0 (stored: 2): %s, the table holds %d items, want %d", adapter, order, o.Class, len(sc.Items), len(items)), wit)
+		}
+		if s := cl.Do(adapt.Op{Kind: adapt.OpPut, Table: spec.Name, Item: val.Item{"h": val.Str("c"), "r": val.Str("2")}}); s.Class == adapt.ClsOK {
+			x.viol("key-type-not-enforced-after-index-deletion", feature, fmt.Sprintf("[%s] after deleting the indexes %v, PutItem with a STRING as the number sort key is accepted", adapter, order), wit)
+		}
+		// the AddIndex helper declares its key attributes as strings: pointed at the number key it must be refused
+		if a := cl.Do(adapt.Op{Kind: adapt.OpAddIndex, Table: spec.Name, Ix: &adapt.IndexSpec{Name: "again", Hash: "r"}}); a.Class == adapt.ClsOK {
+			x.viol("key-attribute-retyped-after-index-deletion", feature, fmt.Sprintf("[%s] after deleting the indexes %v, AddIndex re-declared the number key attribute r as a string", adapter, order), wit)
+		}
 	}
 }
 
